@@ -282,6 +282,12 @@ def shamir_reader_rules(ctx, R1, R3):
                 "every y element stored must have passed the from_repr validity test (an out-of-range element must reject the share)", at)
     ctx.add(R1, rroot + "#chunk-table", okr, "reader must take x from bytes [0,24) and y_i from [24+24i, 48+24i), i < (len-24)/24: %s" % det, at, sample=det)
     short = any(t.op == "lt" and rel == "eq" and v == 0 and t.args[0].op == "len" and t.args[1].op == "int" and t.args[1].args[0] == 24 for t, rel, v in fs)
+    if not short:
+        # the same requirement through any other test (get(..24), split_at_checked, ..): Ok entails len(s) >= 24
+        Ls = lin.Ctx()
+        for f_ in fs:
+            Ls.add_fact(f_)
+        short = lin.entails(Ls, lin.Lin(24).add(Ls.lin(mk("len", mk("param", "s"))), -1))
     ctx.add(R3, rroot + "#refuses-short-input", short, "Ok must require len >= 24", at)
 
 
